@@ -1,4 +1,5 @@
 import MJ.Proofs.Depth
+import MJ.Proofs.DepthHop
 /-!
 # C11 — run-time recursion is cut off by the recursion limit, never by the stack
 
@@ -561,5 +562,329 @@ theorem include_exits_balanced :
     includeChargeArgs = ("INCLUDE_RECURSION_COST", "INCLUDE_RECURSION_COST") ∧
     decrDepthBody = "self.outer_stack_depth -= delta;" :=
   ⟨rfl, by decide, rfl, rfl, rfl⟩
+
+/-! ## Every re-entry edge of the crate is charged (regenerated call graph) -/
+
+/-- how each function of the regenerated re-entry graph (`MJ.Gen.reentryGraph`: every function of
+    the crate from which `eval_impl` is reachable by static calls) takes part in the accounting:
+    `native` = the interpreter loop itself, `trampoline` = calls it without touching the depth,
+    `charged k` = takes the checked depth charge of a model edge before the nested interpreter
+    runs, `root` = starts a fresh render (new `Context`, its own budget), `wrapper` = reaches the
+    interpreter only through a charged function or a root and leaves the depth alone -/
+inductive SiteClass where
+  | native | trampoline | charged (k : Kind) | root | wrapper
+  deriving Repr, DecidableEq
+
+def reentryClass : List ((String × String × String) × SiteClass) := [
+  (("expression.rs", "Expression", "_eval"), .wrapper),
+  (("expression.rs", "Expression", "eval"), .wrapper),
+  (("template.rs", "Template", "_capture_state"), .wrapper),
+  (("template.rs", "Template", "_capture_state_with_output"), .wrapper),
+  (("template.rs", "Template", "_eval"), .wrapper),
+  (("template.rs", "Template", "_render"), .wrapper),
+  (("template.rs", "Template", "render"), .wrapper),
+  (("template.rs", "Template", "render_captured"), .wrapper),
+  (("template.rs", "Template", "render_captured_to"), .wrapper),
+  (("vm/macro_object.rs", "Macro", "call"), .wrapper),
+  (("vm/mod.rs", "", "call_block"), .wrapper),
+  (("vm/mod.rs", "", "eval"), .wrapper),
+  (("vm/mod.rs", "", "eval_macro"), .wrapper),
+  (("vm/mod.rs", "Executor", "call_block"), .charged .blockCall),
+  (("vm/mod.rs", "Executor", "do_eval"), .trampoline),
+  (("vm/mod.rs", "Executor", "eval"), .root),
+  (("vm/mod.rs", "Executor", "eval_impl"), .native),
+  (("vm/mod.rs", "Executor", "eval_macro"), .charged .macroCall),
+  (("vm/mod.rs", "Executor", "eval_state"), .trampoline),
+  (("vm/mod.rs", "Executor", "perform_include"), .charged .includeTpl),
+  (("vm/mod.rs", "Executor", "perform_super"), .charged .superCall),
+  (("vm/state.rs", "State", "render_block"), .wrapper),
+  (("vm/state.rs", "State", "render_block_to_write"), .wrapper)]
+
+def classOf (q : String) : Option SiteClass :=
+  (reentryClass.find? (fun e =>
+    (if e.1.2.1 = "" then e.1.2.2 else e.1.2.1 ++ "::" ++ e.1.2.2) = q)).map (·.2)
+
+/-- the callees a function of each class may reach the interpreter through -/
+def calleeOK (c : SiteClass) (callee : String) : Bool :=
+  match c, classOf callee with
+  -- the trampolines and the guarded functions call a trampoline or the loop
+  | .trampoline, some .trampoline | .trampoline, some .native => true
+  | .charged _, some .trampoline => true
+  | .root, some .trampoline => true
+  -- the loop dispatches to the guarded functions only
+  | .native, some (.charged _) => true
+  -- a wrapper never reaches the loop or a trampoline directly
+  | .wrapper, some (.charged _) | .wrapper, some .root | .wrapper, some .wrapper => true
+  | _, _ => false
+
+def chargedCost : String → Option Nat
+  | "eval_macro" => some (cost .macroCall)
+  | "perform_include" => some (cost .includeTpl)
+  | "perform_super" => some (cost .superCall)
+  | "call_block" => some (cost .blockCall)
+  | _ => none
+
+/-- **every re-entry is charged**: in the regenerated call graph of the crate (1) every function
+    from which the interpreter loop is reachable is classified, (2) the loop and its trampolines
+    are called only by trampolines, by the four guarded functions and by the root `Executor::eval`
+    (fresh context) — so every path into a nested `eval_impl` passes a guarded function —,
+    (3) wrappers and trampolines contain no depth operation at all (nothing between the public
+    entry points — `State::render_block`, `render_block_to_write`, `Macro::call`, `Template::render*`,
+    `Expression::eval` — and the guarded function can lower, reset or replace the depth),
+    (4) each guarded function performs its checked charge (`push_frame` / `incr_depth` present in
+    its body) and the charge computed from its source expressions with the current constants is the
+    cost of the model's edge: 6, 10, 1, 1; only `eval_macro` starts from a fresh context and it
+    inherits the caller's depth.  A new function that re-enters without charge, a depth operation
+    in a wrapper, or a changed constant changes a table and breaks this theorem. -/
+theorem every_reentry_charged :
+    reentryGraph.map (fun r => (r.1, r.2.1, r.2.2.1)) = reentryClass.map (·.1) ∧
+    (∀ r ∈ reentryGraph, ∀ c, classOf (if r.2.1 = "" then r.2.2.1 else r.2.1 ++ "::" ++ r.2.2.1) = some c →
+      r.2.2.2.1.all (calleeOK c) = true) ∧
+    (∀ r ∈ reentryGraph, (r.2.1, r.2.2.1) ∉ [("Executor", "eval_impl"), ("Executor", "eval_macro"),
+        ("Executor", "perform_include"), ("Executor", "perform_super"), ("Executor", "call_block")] →
+      r.2.2.2.2 = "") ∧
+    reentryGraph.filterMap (fun r => if r.2.1 = "Executor" ∧ r.2.2.2.2 ≠ "" then some (r.2.2.1, r.2.2.2.2) else none) =
+      [("call_block", "push_frame"),
+       ("eval_impl", "push_frame,pop_frame,pop_frame"),
+       ("eval_macro", "reset_with_frame,push_frame,clear,incr_depth,clear,clear,replace-ctx"),
+       ("perform_include", "incr_depth,decr_depth"),
+       ("perform_super", "push_frame,pop_frame")] ∧
+    reentryChargeCosts = [("eval_macro", 6, true), ("perform_include", 10, false),
+      ("perform_super", 1, false), ("call_block", 1, false)] ∧
+    (∀ e ∈ reentryChargeCosts, chargedCost e.1 = some e.2.1 ∧ 1 ≤ e.2.1) := by
+  refine ⟨by decide, by decide, by decide, by decide, by decide, by decide⟩
+
+/-- non-vacuity: the graph has the five kinds of rows, and an un-charged caller of the loop would be
+    rejected -/
+example : calleeOK .wrapper "Executor::eval_state" = false ∧ calleeOK .wrapper "Executor::eval_impl" = false ∧
+    calleeOK .wrapper "Executor::call_block" = true ∧ reentryGraph.length = 23 := by decide
+
+/-- **callbacks leave the depth alone**: every function of the crate that hands the `State` to a
+    callback (filter, test, function, object, method: `Value::call`, `Value::call_method`,
+    `State::call_macro`, `State::apply_filter`, `State::perform_test`, the builtin `map` /
+    `select` / `reject` filters and the five call instructions of `eval_impl`) contains no depth
+    operation — except `eval_impl`, whose `PushWith`/`PopFrame`/`PopLoopFrame` are not around a
+    call.  So a recursion that passes through Rust is charged on top of the depth the callback
+    found (`rust_callbacks_transparent`). -/
+theorem callbacks_depth_neutral :
+    callbackSites = [
+      ("filters.rs", "", "map", 1, ""),
+      ("filters.rs", "", "select_or_reject", 1, ""),
+      ("value/mod.rs", "Value", "_call_method", 1, ""),
+      ("value/mod.rs", "Value", "call", 1, ""),
+      ("value/mod.rs", "Value", "call_method", 1, ""),
+      ("vm/mod.rs", "Executor", "eval_impl", 5, "push_frame,pop_frame,pop_frame"),
+      ("vm/state.rs", "State", "apply_filter", 1, ""),
+      ("vm/state.rs", "State", "call_macro", 1, ""),
+      ("vm/state.rs", "State", "perform_test", 1, "")] ∧
+    (∀ r ∈ callbackSites, r.2.2.1 ≠ "eval_impl" → r.2.2.2.2 = "") ∧
+    contextMutators = ["clear", "current_locals_mut", "decr_depth", "incr_depth", "next_loop_item",
+      "pop_frame", "push_frame", "reset_closure", "reset_with_frame", "restore_stack_depth", "store",
+      "take_closure"] :=
+  ⟨rfl, by decide, rfl⟩
+
+example : callbackSites.length = 9 ∧ contextMutators.length = 12 := by decide
+
+/-- **the depth is adjusted in seven functions only**: every function of the crate that performs a
+    depth operation on a context (`push_frame`, `pop_frame`, `incr_depth`, `decr_depth`,
+    `reset_with_frame`, `clear`, `restore_stack_depth`, or replaces `state.ctx`), with the operations
+    in source order: the four guarded re-entries, the interpreter loop (`PushWith` / `PopFrame` /
+    `PopLoopFrame`), `push_loop` (a checked frame per loop, also per level of a recursive loop) and
+    `with_execution_state` (truncation to the depth saved at entry = the model's `leave`).  Every
+    increase is one of the two checked operations; the only unchecked frame is the base frame of a
+    fresh macro context (`reset_with_frame`, counted in the macro's cost). -/
+theorem depth_ops_confined :
+    depthOpSites = [
+      ("vm/mod.rs", "Executor", "call_block", "push_frame"),
+      ("vm/mod.rs", "Executor", "eval_impl", "push_frame,pop_frame,pop_frame"),
+      ("vm/mod.rs", "Executor", "eval_macro", "reset_with_frame,push_frame,clear,incr_depth,clear,clear,replace-ctx"),
+      ("vm/mod.rs", "Executor", "perform_include", "incr_depth,decr_depth"),
+      ("vm/mod.rs", "Executor", "perform_super", "push_frame,pop_frame"),
+      ("vm/mod.rs", "Executor", "push_loop", "push_frame"),
+      ("vm/state.rs", "State", "with_execution_state", "restore_stack_depth")] ∧
+    (∀ r ∈ depthOpSites, r.2.1 = "Executor" ∨ r.2.2.1 = "with_execution_state") :=
+  ⟨rfl, by decide⟩
+
+example : depthOpSites.length = 7 := by decide
+
+/-- every constructor of `Environment` starts with the maximum as limit -/
+theorem env_limit_defaults :
+    envLimitDefaults = [("new", "MAX_RECURSION"), ("empty", "MAX_RECURSION")] ∧
+    ∀ e ∈ envLimitDefaults, e.2 = "MAX_RECURSION" :=
+  ⟨rfl, by decide⟩
+
+example : envLimitDefaults.length = 2 := by decide
+
+/-! ## Rust callbacks on the cycle (mixed traces) -/
+
+/-- **Rust callbacks are transparent for the accounting**: a trace in which callbacks are entered
+    and left between the depth events (filter → `State::render_block` → template → filter → …)
+    ends exactly like its depth events: same accounting state, same recursion error, no panic —
+    so all theorems above hold for mixed cycles: weighted nesting ≤ limit, nesting ≤ limit, and
+    the nested re-entry is charged on top of the full depth -/
+theorem rust_callbacks_transparent (L : Nat) (evs : List EvH) :
+    (runH (initH L) evs = .stuck ∨ (runH (initH L) evs).toOut = run (init L) (erase evs)) ∧
+    runH (initH L) evs ≠ .panic ∧
+    (∀ s, runH (initH L) evs = .ok s →
+      Reach L s.st ∧ wsum s.st.acts ≤ L ∧ nativeDepth s.st ≤ max L 1 ∧
+      s.saved.length = s.st.acts.length) := by
+  have h0 := runH_erase evs (initH L) (invH_init L)
+  refine ⟨h0, ?_, ?_⟩
+  · intro hp
+    rcases h0 with h | h
+    · rw [hp] at h; cases h
+    · rw [hp] at h
+      exact run_never_panics Reach.init (erase evs) h.symm
+  · intro s hs
+    obtain ⟨h1, h2⟩ := runH_ok_erase (invH_init L) hs
+    have hr : Reach L s.st := reach_run Reach.init h1
+    exact ⟨hr, (weighted_nesting hr).2.1, (native_depth_le_limit hr).1, h2⟩
+
+/-- filter → render_block → filter → call_macro at limit 20: the depth events alone decide -/
+example : runH (initH 20) [.hop, .ev (.enter .blockCall), .hop, .hop, .ev (.enter .macroCall), .hop,
+      .ev (.enter .includeTpl), .hop, .ev (.enter .macroCall)] = .recursionError ∧
+    (runH (initH 20) [.hop, .ev (.enter .blockCall), .hop, .unhop, .hop, .hop, .ev (.enter .macroCall)]).toOut =
+      run (init 20) [.enter .blockCall, .enter .macroCall] := by decide
+
+/-- a callback between two re-entries changes nothing of what the second one is charged -/
+theorem hop_then_enter (s : StH) (k : Kind) :
+    (stepH s .hop = .ok { s with cur := s.cur + 1 }) ∧
+    (runH s [.hop, .ev (.enter k)]).toOut = step s.st (.enter k) := by
+  refine ⟨rfl, ?_⟩
+  simp only [runH, stepH]
+  cases h : step s.st (.enter k) <;> rfl
+
+example : (runH ⟨⟨30, ⟨10, 2⟩, []⟩, 1, []⟩ [.hop, .ev (.enter .macroCall)]).toOut =
+    .ok ⟨30, ⟨16, 2⟩, [⟨.macroCall, ⟨10, 2⟩, 2⟩]⟩ := by decide
+
+/-- the callback frames on the native stack: at most `H` per activation when no activation nests
+    more than `H` callbacks before template code runs again -/
+theorem hop_frames_bounded (H L : Nat) (evs : List EvH) (s : StH)
+    (hw : hopsWithin H (initH L) evs) (hr : runH (initH L) evs = .ok s) :
+    totalHops s ≤ H * nativeDepth s.st ∧ totalHops s ≤ H * max L 1 := by
+  have hi := runH_hopInv (hopInv_init H L) hw hr
+  have h1 := totalHops_le hi
+  obtain ⟨_, _, hn, hlen⟩ := (rust_callbacks_transparent L evs).2.2 s hr
+  rw [hlen] at h1
+  refine ⟨h1, ?_⟩
+  have : H * nativeDepth s.st ≤ H * max L 1 := Nat.mul_le_mul_left H hn
+  exact Nat.le_trans h1 this
+
+example : ∃ s, runH (initH 500) [.hop, .hop, .ev (.enter .blockCall), .hop, .ev (.enter .macroCall), .hop] = .ok s ∧
+    hopsWithin 2 (initH 500) [.hop, .hop, .ev (.enter .blockCall), .hop, .ev (.enter .macroCall), .hop] ∧
+    totalHops s = 4 ∧ nativeDepth s.st = 3 :=
+  ⟨_, rfl, (hopsWithinB_iff 2 _ _).1 (by decide), by decide, by decide⟩
+
+/-! ## The stack budget with the measured bytes as checked inputs -/
+
+/-- **the stack budget holds**: if the decidable check `budgetOK` — entry overhead + `MAX_RECURSION`
+    × the largest measured bytes-per-depth-unit among the kinds `P` (a re-entry counted with the `H`
+    callback frames of `hopBytes` that can sit below it) `<` the stack size — evaluates to `true` on
+    the measured values
+    (the driver evaluates this very function on every run's measurements, for every build profile
+    and both stack sizes, with `P` = the edge kinds that are not known findings), then no mixture
+    of re-entries of kinds `P` with at most `H` Rust callbacks nested per activation, at any limit
+    up to the default, needs as much native stack as there is. -/
+theorem stack_budget_holds (stack root hopBytes H : Nat) (bytes : Kind → Nat) (P : Kind → Bool)
+    (hb : budgetOK stack root hopBytes H bytes P = true) :
+    ∀ L, L ≤ maxRecursionEnv → ∀ (evs : List EvH) (s : StH),
+      runH (initH L) evs = .ok s → hopsWithin H (initH L) evs →
+      (∀ a ∈ s.st.acts, P a.kind = true) →
+      root + stackBytesH bytes hopBytes s < stack := by
+  intro L hL evs s hr hw hP
+  have hb' : projected root hopBytes H bytes P < stack := by
+    simpa [budgetOK] using hb
+  obtain ⟨hreach, hws, _, hlen⟩ := (rust_callbacks_transparent L evs).2.2 s hr
+  have h1 := stack_le_weighted (fun k => P k = true) (withHops hopBytes H bytes)
+    (rho (withHops hopBytes H bytes) P) (fun k hk => bytes_le_rho _ P k hk) s.st.acts hP
+  have h2 : rho (withHops hopBytes H bytes) P * wsum s.st.acts ≤
+      rho (withHops hopBytes H bytes) P * maxRecursionEnv := Nat.mul_le_mul_left _ (by omega)
+  have hi := runH_hopInv (hopInv_init H L) hw hr
+  have h3 := savedHops_le hi
+  rw [hlen] at h3
+  have h4 := stackBytes_withHops hopBytes H bytes s.st.acts
+  have h5 : hopBytes * totalHops s ≤ hopBytes * (H * s.st.acts.length + H) :=
+    Nat.mul_le_mul_left _ h3
+  rw [Nat.mul_add, ← Nat.mul_assoc] at h5
+  simp only [stackBytesH]
+  simp only [projected] at hb'
+  omega
+
+/-- a filter → `State::call_macro` → macro → filter → … → include cycle -/
+def exampleMixedTrace : List EvH :=
+  [.hop, .ev (.enter .macroCall), .hop, .ev (.enter .macroCall), .hop, .ev (.enter .includeTpl), .hop]
+
+/-- an instance: release profile, macro / caller / include re-entries with one callback frame of
+    600 bytes below each, at the default limit: below 2 MiB -/
+example : ∃ s, runH (initH 500) exampleMixedTrace = .ok s ∧
+    5100 + stackBytesH measuredRelease 600 s < 2097152 :=
+  ⟨_, rfl, stack_budget_holds 2097152 5100 600 1 measuredRelease
+    (fun k => k != .blockCall && k != .superCall) (by decide) 500 (by decide) exampleMixedTrace _ rfl
+    ((hopsWithinB_iff 1 _ _).1 (by decide)) (by decide)⟩
+
+/-- the same without callbacks, over the reachable states of the accounting model -/
+theorem stack_budget_holds_plain (stack root : Nat) (bytes : Kind → Nat) (P : Kind → Bool)
+    (hb : budgetOK stack root 0 0 bytes P = true) :
+    ∀ L, L ≤ maxRecursionEnv → ∀ s, Reach L s → (∀ a ∈ s.acts, P a.kind = true) →
+      root + stackBytes bytes s.acts < stack := by
+  intro L hL s hs hP
+  have hb' : projected root 0 0 bytes P < stack := by simpa [budgetOK] using hb
+  have hw0 : withHops 0 0 bytes = bytes := by funext k; simp [withHops]
+  have h1 := stack_le_weighted (fun k => P k = true) bytes (rho bytes P)
+    (fun k hk => bytes_le_rho bytes P k hk) s.acts hP
+  have h2 : rho bytes P * wsum s.acts ≤ rho bytes P * maxRecursionEnv :=
+    Nat.mul_le_mul_left _ (by have := (weighted_nesting hs).2.1; omega)
+  simp only [projected, hw0] at hb'
+  omega
+
+/-- the snapshots: release fits 2 MiB for every kind, also with one callback frame of 600 bytes
+    per activation for everything but block calls; the unoptimised debug build fits 2 MiB without
+    block calls / `super()` and 8 MiB with them; with them it does not fit 2 MiB (known finding) -/
+example : budgetOK 2097152 5100 0 0 measuredRelease (fun _ => true) = true ∧
+    budgetOK 2097152 5100 600 1 measuredRelease (fun k => k != .blockCall && k != .superCall) = true ∧
+    budgetOK 2097152 15300 0 0 measuredDebugO0 (fun k => k != .blockCall && k != .superCall) = true ∧
+    budgetOK 8388608 15300 0 0 measuredDebugO0 (fun _ => true) = true ∧
+    budgetOK 2097152 15300 0 0 measuredDebugO0 (fun _ => true) = false := by decide
+
+/-- **the frame-size relevant declarations of `eval_impl` are tied**: its parameters, the locals
+    declared before the interpreter loop, the fixed-size arrays among them with their lengths
+    (`MAX_LOCALS` each), and the inline attributes of vm/mod.rs are the regenerated ones; the arrays
+    alone (8 bytes per element) take `2 × MAX_LOCALS × 8` bytes of every native re-entry, and at
+    the maximum nesting (`MAX_RECURSION` re-entries charged one unit each) that is within a quarter
+    of the smallest supported stack.  A longer or additional array, a new local or a changed
+    inline attribute changes a table; `frameLowerOK` (evaluated on the measurements of every run)
+    checks that no measured frame is smaller than its arrays. -/
+theorem frame_constants_tied :
+    evalImplParams = ["state: &mut State<'_", "'env>", "out: &mut Output", "mut stack: Stack", "mut pc: u32"] ∧
+    evalImplLocals = ["initial_auto_escape", "undefined_behavior", "strict_undefined", "auto_escape_stack",
+      "next_loop_recursion_jump", "loop_recursion_bases", "loaded_filters", "loaded_tests",
+      "parent_instructions"] ∧
+    evalImplArrays = [("loaded_filters", "None", maxLocals), ("loaded_tests", "None", maxLocals)] ∧
+    evalImplArrayBytes = 2 * maxLocals * 8 ∧
+    vmInlineAttrs = [("eval_state", "inline(always)"), ("eval_impl", "inline"), ("process_err", "inline(never)")] ∧
+    maxRecursionEnv * evalImplArrayBytes ≤ 2097152 / 4 ∧
+    (∀ bytes : Kind → Nat, frameLowerOK bytes = true → ∀ k, evalImplArrayBytes ≤ bytes k) := by
+  refine ⟨rfl, rfl, rfl, rfl, rfl, by decide, ?_⟩
+  intro bytes h k
+  simp only [frameLowerOK, allKinds, List.all_cons, List.all_nil, Bool.and_true, Bool.and_eq_true,
+    decide_eq_true_eq] at h
+  obtain ⟨h1, h2, h3, h4, h5⟩ := h
+  cases k <;> assumption
+
+example : frameLowerOK measuredRelease = true ∧ frameLowerOK (fun _ => 700) = false := by decide
+
+/-- the charge of an include does not depend on how many candidates of a list were tried before the
+    template that is found, nor on `ignore missing` -/
+theorem include_candidates_charged_once (s : St) (n : Nat) (evs : List Ev) :
+    run s (List.replicate n .missingInclude ++ .enter .includeTpl :: evs) =
+      run s (.enter .includeTpl :: evs) := by
+  induction n with
+  | zero => rfl
+  | succ n ih =>
+    rw [List.replicate_succ, List.cons_append, (missing_include_depth_neutral s).2]
+    exact ih
+
+example : run (init 25) [.missingInclude, .enter .includeTpl, .missingInclude, .missingInclude,
+    .enter .includeTpl, .missingInclude, .enter .includeTpl] = .recursionError := by decide
 
 end MJ.C11
